@@ -243,6 +243,14 @@ func wfRangeReq(o *ObjectRangeRequest) bool {
 //@ requires          inv:    uploaderInv(u)
 //@ requires          free:   u.mu == 0
 //@ requires          mfree:  allref(m, *multipartUpload, m.mu == 0)
+//@ option guard-triggers
+//@ requires [C14]    uwf:    uWf(u)
+//@ requires [C14]    umember: uMember(u)
+//@ requires [C14]    udistinct: uDistinct(u)
+//@ requires [C14]    ucompl: uCompl(u)
+//@ requires [C14]    usep:   uSep(u)
+//@ requires [C14]    ids:    idsBelow(u)
+//@ uses hidden: req.uwf req.umember req.udistinct req.ucompl req.usep req.ids
 //@ requires          pn:     partNumber >= 1
 //@ requires          input:  input != nil
 //@ ensures [C08,C06] reject: imp(err != nil, unchanged())
@@ -254,6 +262,18 @@ func wfRangeReq(o *ObjectRangeRequest) bool {
 //@ ensures [C06,C14] others: imp(err == nil, all(j, 0, len(M.parts), imp(j != partNumber,
 //@                             M.parts[j] == ite(j < old(len(M.parts)), old(M.parts[j]), nil))))
 //@ ensures [C08]     limit:  imp(partNumber > MaxUploadPartNumber, err != nil)
+//@ ensures [C14]     uwf:    uWf(u)
+//@ ensures [C14]     umember: uMember(u)
+//@ ensures [C14]     udistinct: uDistinct(u)
+//@ ensures [C14]     ucompl: uCompl(u)
+//@ ensures [C14]     usep:   uSep(u)
+//@ ensures [C14]     ids:    idsBelow(u)
+//@ uses uwf: req.inv req.uwf -hints -calls
+//@ uses umember: req.inv req.umember -hints -calls
+//@ uses udistinct: req.inv req.udistinct -hints -calls
+//@ uses ucompl: req.inv req.ucompl -hints -calls
+//@ uses usep: req.inv req.usep -hints -calls
+//@ uses ids: req.inv req.ids -hints -calls
 //@ ensures           locks:  u.mu == 0
 //@ ensures           inv:    uploaderInv(u)
 
@@ -545,12 +565,16 @@ func wfRangeReq(o *ObjectRangeRequest) bool {
 //@ requires          free:   u.mu == 0
 //@ requires [C14]    uwf:    uWf(u)
 //@ requires [C14]    umember: uMember(u)
+//@ requires [C14]    udistinct: uDistinct(u)
+//@ requires [C14]    ucompl: uCompl(u)
+//@ requires [C14]    usep:   uSep(u)
+//@ requires [C14]    ids:    idsBelow(u)
 //@ pred kAt(l, i) = sl_key(l)[i]
 //@ pred lAt(l, i) = dyn(sl_val(l)[sl_key(l)[i]], []*multipartUpload)
 //@ pred keysOK(bu) = all0(i, 0, sl_len(bu.objectIndex), typeis(kAt(bu.objectIndex, i), string) && typeis(sl_val(bu.objectIndex)[kAt(bu.objectIndex, i)], []*multipartUpload) &&
 //@     len(lAt(bu.objectIndex, i)) >= 1 && all(j, 0, len(lAt(bu.objectIndex, i)), lAt(bu.objectIndex, i)[j] != nil && has(bu.uploads, lAt(bu.objectIndex, i)[j].ID) &&
 //@         bu.uploads[lAt(bu.objectIndex, i)[j].ID] == lAt(bu.objectIndex, i)[j] && lAt(bu.objectIndex, i)[j].Object == dyn(kAt(bu.objectIndex, i), string)))
-//@ uses hidden: req.uwf req.umember
+//@ uses hidden: req.uwf req.umember req.udistinct req.ucompl req.usep req.ids
 //@ uses keys: req.inv req.uwf req.umember
 //@ loop 1 invariant  bkt:    ok && bucketUploads != nil && bucketUploads == u.buckets[bucket] && has(u.buckets, bucket)
 //@ loop 1 invariant  iter:   iter != nil && iter.inner != nil && it_list(iter.inner) == bucketUploads.objectIndex && -1 <= it_idx(iter.inner) && 0 <= NX && NX <= sl_len(bucketUploads.objectIndex) &&
@@ -593,6 +617,18 @@ func wfRangeReq(o *ObjectRangeRequest) bool {
 //@ ensures [C14]     nextok: imp(ret1 == nil && ret0.IsTruncated, has(BU.uploads, ret0.NextUploadIDMarker) && BU.uploads[ret0.NextUploadIDMarker] != nil &&
 //@                             BU.uploads[ret0.NextUploadIDMarker].Object == ret0.NextKeyMarker)
 //@ ensures [C14]     nonext: imp(ret1 == nil && !ret0.IsTruncated, ret0.NextUploadIDMarker == "" && ret0.NextKeyMarker == "")
+//@ ensures [C14]     uwf:    uWf(u)
+//@ ensures [C14]     umember: uMember(u)
+//@ ensures [C14]     udistinct: uDistinct(u)
+//@ ensures [C14]     ucompl: uCompl(u)
+//@ ensures [C14]     usep:   uSep(u)
+//@ ensures [C14]     ids:    idsBelow(u)
+//@ uses uwf: req.inv req.uwf -hints -calls
+//@ uses umember: req.inv req.umember -hints -calls
+//@ uses udistinct: req.inv req.udistinct -hints -calls
+//@ uses ucompl: req.inv req.ucompl -hints -calls
+//@ uses usep: req.inv req.usep -hints -calls
+//@ uses ids: req.inv req.ids -hints -calls
 //@ ensures           locks:  u.mu == 0
 
 //@ func (*uploader).AbortMultipartUpload
@@ -647,6 +683,14 @@ func wfRangeReq(o *ObjectRangeRequest) bool {
 //@ let R = ret0.Parts
 //@ requires          inv:    uploaderInv(u)
 //@ requires          free:   u.mu == 0
+//@ option guard-triggers
+//@ requires [C14]    uwf:    uWf(u)
+//@ requires [C14]    umember: uMember(u)
+//@ requires [C14]    udistinct: uDistinct(u)
+//@ requires [C14]    ucompl: uCompl(u)
+//@ requires [C14]    usep:   uSep(u)
+//@ requires [C14]    ids:    idsBelow(u)
+//@ uses hidden: req.uwf req.umember req.udistinct req.ucompl req.usep req.ids
 //@ requires          args:   marker >= 0 && limit >= 0
 //@ loop 1 invariant  idx:    -1 <= rangeindex && rangeindex < len(mpu.parts) && !result.IsTruncated
 //@ loop 1 invariant  cnt:    cnt == len(result.Parts) && 0 <= cnt && cnt <= limit
@@ -680,6 +724,18 @@ func wfRangeReq(o *ObjectRangeRequest) bool {
 //@ ensures [C14]     more:   imp(ret1 == nil && ret0.IsTruncated, ex(j, 0, len(M.parts), M.parts[j] != nil && all(k, 0, len(R), R[k].PartNumber != j) && j > marker))
 //@ ensures [C14]     same:   unchanged()
 //@ ensures           locks:  u.mu == 0
+//@ ensures [C14]     uwf:    uWf(u)
+//@ ensures [C14]     umember: uMember(u)
+//@ ensures [C14]     udistinct: uDistinct(u)
+//@ ensures [C14]     ucompl: uCompl(u)
+//@ ensures [C14]     usep:   uSep(u)
+//@ ensures [C14]     ids:    idsBelow(u)
+//@ uses uwf: req.inv req.uwf -hints -calls
+//@ uses umember: req.inv req.umember -hints -calls
+//@ uses udistinct: req.inv req.udistinct -hints -calls
+//@ uses ucompl: req.inv req.ucompl -hints -calls
+//@ uses usep: req.inv req.usep -hints -calls
+//@ uses ids: req.inv req.ids -hints -calls
 
 // ---- C17: bucket names -----------------------------------------------------------
 // The statement of the property as regular languages: labels of at least three
